@@ -86,6 +86,46 @@ def cases_for_list(n, ok_scripts, fail_scripts, thorough):
                     fail_scripts.append((("list", n, "rset", a, b, m, as_str), src, ""))
 
 
+def multibyte_rset_cases(ok_scripts, fail_scripts):
+    """a string on the right of a range assignment contributes its *bytes* (as one-byte strings)"""
+    for s in ["é", "aé", "€", "é€", "😀"]:
+        nb = len(s.encode("utf-8"))
+        for n in range(nb, nb + 3):
+            xs = [10 + i for i in range(n)]
+            for a in range(0, n - nb + 1):
+                b = a + nb
+                body = [f"xs := {lit_list(xs)}", f's := "{s}"', f"xs[{a}:{b}] = s"]
+                exp = []
+                for k in range(nb):
+                    body.append(f"print(xs[{a + k}] == s[{k}])")
+                    exp.append("true\n")
+                for i in range(n):
+                    if not a <= i < b:
+                        body.append(f"print(xs[{i}])")
+                        exp.append(f"{xs[i]}\n")
+                body.append("n := 0\nfor [k, v] in xs {\n    n += 1\n}\nprint(n)")
+                exp.append(f"{n}\n")
+                ok_scripts.append((("list", n, "rset-bytes", s, a), "\n".join(body) + "\n", "".join(exp)))
+            # as many *characters* as indices, but more bytes: must be rejected
+            nc = len(s)
+            if nc != nb and nc <= n:
+                fail_scripts.append((("list", n, "rset-chars", s), f"xs := {lit_list(xs)}\nxs[0:{nc}] = \"{s}\"\nprint(\"unreachable\")\n", ""))
+
+
+def concat_fresh_cases(ok_scripts):
+    """`s + t` is a new sequence also when one operand is empty: updating it leaves the operands alone"""
+    for n in range(0, 4):
+        xs = [10 + i for i in range(n)]
+        for form in ("xs + []", "[] + xs", "xs + xs[0:0]", "xs[0:0] + xs"):
+            if n == 0:
+                continue
+            new = list(xs)
+            new[0] = 99
+            src = (f"xs := {lit_list(xs)}\nys := {form}\nys[0] = 99\nprint(xs)\nprint(ys)\nys[0:1] = [7]\nprint(xs)\n"
+                   f"print(ys == xs)\n")
+            ok_scripts.append((("list", n, "concat-fresh", form), src, render_list(xs) + render_list(new) + render_list(xs) + "false\n"))
+
+
 def cases_for_str(chars, ok_scripts, fail_scripts):
     s = "".join(chars)
     bs = s.encode("utf-8")
@@ -161,6 +201,8 @@ def run(ctx, model_ok):
         for chars in itertools.product(alpha, repeat=n):
             cases_for_str(chars, ok_scripts, fail_scripts)
     nonint_cases(fail_scripts)
+    multibyte_rset_cases(ok_scripts, fail_scripts)
+    concat_fresh_cases(ok_scripts)
     ctx.cov["exhaustive"] = True
     for label, cs, must_fail in (("succeeding", ok_scripts, False), ("failing", fail_scripts, True)):
         srcs = [c[1] for c in cs]
